@@ -702,6 +702,7 @@ func newGenTree(r *RNG, kt KeyType, val string, lim int) *genTree {
 
 type genOpts struct {
 	churnBias bool // statement-point batches: every independent-trees run is a pool-churn run
+	growBias  bool // background-collector batches: most runs drive nodes through every size class (sweeps)
 	tier   string
 	domain string
 	bits32 bool
@@ -901,7 +902,7 @@ func genTrace(prop string, seed uint64, run int, o genOpts) *Trace {
 			budget += len(tr.Steps)
 		}
 	}
-	if r.Intn(25) == 0 {
+	if r.Intn(25) == 0 || (o.growBias && r.Intn(3) != 0) {
 		ti := r.Intn(nT)
 		g := gts[ti]
 		if g.kt.Kind != "collation" && g.kt.Kind != "compound" {
